@@ -2503,3 +2503,229 @@ _run_before_digit_parser = run
 def run(chk):       # noqa: F811
     _run_before_digit_parser(chk)
     rule_digit_parser(chk)
+
+
+# ---------------------------------------------------------------------------------------------------------------
+# C03.filter-overlap and C03.sign-fraction (round 5): tabulations of the real functions with sa/ointerp.py
+#
+# C03.filter-overlap  BaseNumberExtractor._filter_item(er, matches) is interpreted on every interval order type of an
+#                     extraction and one or two ambiguous matches over a small grid: the extraction is dropped iff it
+#                     overlaps one of the matches.
+# C03.sign-fraction   CJKNumberParser.dou_parse is interpreted per CJK configuration on decimals built from the culture's own
+#                     digit map, point character and negative sign: value = sign * (|integer part| + fraction).
+
+def oi_value(v):
+    """python value -> ointerp representation (dicts are {key: (key, value)})"""
+    if isinstance(v, dict):
+        return {k: (k, oi_value(x)) for k, x in v.items()}
+    if isinstance(v, list):
+        return [oi_value(x) for x in v]
+    return v
+
+
+def oi_regex_hooks():
+    """regex.search / regex.split over pattern TEXT, decided with the regex reader (L+): search = membership of .*P.*"""
+    from .. import rx
+    from ..ointerp import native
+    cache = {}
+
+    def tree(p):
+        if not isinstance(p, str):
+            raise AnalysisError('regex hook: pattern is not a string (%r)' % (p,))
+        if p not in cache:
+            try:
+                cache[p] = (rx.parse('(?:.*)(?:%s)(?:.*)' % p), rx.parse(p))
+            except rx.RxError as e:
+                raise AnalysisError('regex hook: pattern %r not analysable (%s)' % (p[:40], e))
+        return cache[p]
+
+    def search(it, args, kw):
+        return True if rx.matches(tree(args[0])[0], args[1]) else None
+
+    def split(it, args, kw):
+        p, s = args[0], args[1]
+        t = tree(p)[1]
+        try:
+            lang = rx.enumerate_language(t, limit=200)
+        except rx.RxError:
+            raise AnalysisError('regex.split hook: separator pattern %r is not a finite set of characters' % (p[:40],))
+        if not lang or any(len(x) != 1 for x in lang):
+            raise AnalysisError('regex.split hook: separator pattern %r is not a set of single characters' % (p[:40],))
+        out, cur = [], ''
+        for ch in s:
+            if ch in lang:
+                out.append(cur)
+                cur = ''
+            else:
+                cur += ch
+        out.append(cur)
+        return out
+    return {'regex.search': search, 'regex.split': split}
+
+
+def super_interp_class():
+    """ointerp.Interp + zero-argument super().method (resolved after the current class in the MRO of self)"""
+    from ..ointerp import Bound, FuncRef, Interp, native
+
+    class SuperInterp(Interp):
+        def ev(self, e, env, mod, cls):
+            if isinstance(e, ast.Attribute) and isinstance(e.value, ast.Call) and isinstance(e.value.func, ast.Name) \
+                    and e.value.func.id == 'super' and not e.value.args and not e.value.keywords and cls is not None:
+                ok, o = env.get('self')
+                if ok and getattr(o, 'cls', None) is not None:
+                    mro = self.idx.mro(o.cls)
+                    if cls in mro:
+                        for k in mro[mro.index(cls) + 1:]:
+                            if e.attr in k.methods:
+                                return Bound(o, FuncRef(k.mod, k.methods[e.attr], k))
+                        if e.attr == '__init__':
+                            return native(lambda it, a, kw: None)
+                self.fail(e, 'super().%s' % e.attr)
+            return Interp.ev(self, e, env, mod, cls)
+
+        def call_value(self, f, args, kwargs, node):
+            # builtins passed as values (sorted(keys, key=len), map(str, xs))
+            if isinstance(f, tuple) and len(f) == 2 and f[0] == 'builtin':
+                return self.builtin(f[1], list(args), kwargs, node)
+            return Interp.call_value(self, f, args, kwargs, node)
+    return SuperInterp
+
+
+def cjk_config_table(ev, cfg, code):
+    from ..ointerp import Native, native
+    table = {}
+    for s_ in ('zero_to_nine_map', 'round_number_map_char', 'unit_map', 'ten_chars', 'round_direct_list', 'zero_char', 'pair_char',
+               'dozen_regex', 'pair_regex', 'point_regex', 'negative_number_sign_regex', 'double_and_round_regex', 'full_to_half_map',
+               'trato_sim_map', 'digit_num_regex', 'frac_split_regex'):
+        try:
+            sl = slot(ev, cfg, s_)
+        except AnalysisError:
+            continue
+        if sl.value is None and sl.origin.startswith('unresolved'):
+            raise AnalysisError('%s.%s wiring not evaluable (%s)' % (cfg.name, s_, sl.origin))
+        table[s_] = oi_value(sl.value)
+    table['culture_info'] = Native({'code': code, 'format': native(lambda it, a, k: str(a[0]))}, 'culture_info')
+    return Native(table, '%s()' % cfg.name)
+
+
+def rule_filter_and_fraction(chk):
+    import itertools
+    from .. import rx
+    from ..ointerp import FuncRef, Interp, Native, Obj, PyExc, native
+    ev = Ev()
+    idx = ev.idx
+    chk.rule('C03.filter-overlap', 'the ambiguity filter drops an extraction iff it overlaps an ambiguous match (tabulated)', floor=1,
+             control=True)
+    chk.rule('C03.sign-fraction', 'CJK decimal parse: value = sign x (|integer part| + fraction) (tabulated per configuration)', floor=2,
+             control=True)
+    bne = idx.cls('recognizers_number.number.extractors.BaseNumberExtractor')
+    fi = bne.methods.get('_filter_item')
+    if fi is None:
+        raise AnalysisError('anchor vanished: BaseNumberExtractor._filter_item')
+    chk.consulted(bne.mod.path)
+
+    def mk_match(s, e):
+        return Native({'start': native(lambda it, a, k, s=s: s), 'end': native(lambda it, a, k, e=e: e),
+                       'group': native(lambda it, a, k: 'x' * (e - s))}, 'match[%d,%d)' % (s, e))
+
+    def tabulate(fn, owner):
+        grid = 6
+        spans = [(s, e) for s in range(grid) for e in range(s + 1, grid + 1)]
+        bad, runs = [], 0
+        for (es, ee) in spans:
+            for n in (1, 2):
+                for ms in itertools.product(spans, repeat=n):
+                    it = Interp(idx, where='_filter_item', budget=20000)
+                    er = Obj(None, {'start': es, 'length': ee - es, 'text': 'x' * (ee - es), 'type': 't', 'data': None})
+                    try:
+                        got = it.call_function(FuncRef(bne.mod, fn, owner), [er, [mk_match(a, b) for a, b in ms]], {}, selfobj=Obj(owner, {}))
+                    except PyExc as ex:
+                        bad.append(('er [%d,%d) matches %s' % (es, ee, list(ms)), 'raises %s' % ex))
+                        continue
+                    runs += 1
+                    want = not any(a < ee and b > es for a, b in ms)       # kept iff disjoint from every match
+                    if bool(got) != want:
+                        bad.append(('er [%d,%d) matches %s' % (es, ee, list(ms)), 'kept=%s, expected kept=%s' % (bool(got), want)))
+        return bad, runs
+    bad, runs = tabulate(fi, bne)
+    msg = ''
+    if bad:
+        msg = ('BaseNumberExtractor._filter_item does not implement "drop iff overlapping": %s -> %s (%d of the tabulated configurations '
+               'differ): when a culture\'s ambiguity filter fires, extractions are kept / dropped wrongly' % (bad[0][0], bad[0][1], len(bad)))
+    chk.judge(not bad, 'C03.filter-overlap', bne.mod.path, 'BaseNumberExtractor._filter_item',
+              '%d configurations (grid 6, one or two matches), %d wrong' % (runs, len(bad)), msg, fi.lineno)
+    # the filter is applied through filter(lambda x: self._filter_item(x, matches), ers): keep = truthy
+    ctl = ast.parse("def _filter_item(self, er, matches):\n    er_end = er.start + er.length\n    for match in matches:\n"
+                    "        if not (match.end() <= er.start and match.start() >= er_end):\n            return False\n    return True\n").body[0]
+    cbad, _r = tabulate(ctl, bne)
+    chk.control('C03.filter-overlap', bool(cbad))
+
+    # ---- CJK decimal composition
+    regs = number_registrations(ev)
+    cjk = idx.cls('recognizers_number.number.cjk_parsers.CJKNumberParser')
+    dou = cjk.methods.get('dou_parse')
+    if dou is None:
+        raise AnalysisError('anchor vanished: CJKNumberParser.dou_parse')
+    chk.consulted(cjk.mod.path)
+    er_cls = idx.cls('recognizers_text.extractor.ExtractResult')
+    hooks = oi_regex_hooks()
+    done = set()
+
+    def run_dou(fn, cfg_native, text):
+        it = super_interp_class()(idx, hooks=hooks, where='dou_parse', budget=200000)
+        src = Obj(er_cls, {'start': 0, 'length': len(text), 'text': text, 'type': 'builtin.num.double', 'data': 'DoubleChs', 'meta_data': None})
+        res = it.call_function(FuncRef(cjk.mod, fn, cjk), [src], {}, selfobj=Obj(cjk, {'config': cfg_native}))
+        return res.attrs.get('value') if isinstance(res, Obj) else None
+    for nr in regs:
+        code = nr.reg.culture
+        if nr.reg.model_cls.name != 'NumberModel' or nr.config_cls.qual in done:
+            continue
+        pcls, _s = factory_decide(ev, nr.factory_call[0], nr.factory_call[1], nr.ptype, nr.config_cls)
+        if cjk not in idx.mro(pcls):
+            continue
+        done.add(nr.config_cls.qual)
+        cfgn = cjk_config_table(ev, nr.config_cls, code)
+        digits = {k: v for k, v in (slot(ev, nr.config_cls, 'zero_to_nine_map').value or {}).items() if isinstance(v, int)}
+        inv = {}
+        for ch, v in digits.items():
+            if not ch.isdigit() and not ('０' <= ch <= '９'):
+                inv.setdefault(v, ch)
+        need = [0, 2, 5, 6]
+        if any(v not in inv for v in need):
+            raise AnalysisError('%s: digit characters for %s not found in zero_to_nine_map' % (code, need))
+        pt = rx.parse(slot(ev, nr.config_cls, 'point_regex').value)
+        point = next((c for c in '点點.．・' if rx.matches(pt, c)), None)
+        ng = rx.parse(slot(ev, nr.config_cls, 'negative_number_sign_regex').value)
+        neg = next((c for c in ('负', '負', '-', 'マイナス') if rx.matches(ng, c + inv[6]) and len(c) == 1), None)
+        if point is None or neg is None:
+            raise AnalysisError('%s: point / negative sign character not derivable from the configuration' % code)
+        ten = next((k for k, v in (slot(ev, nr.config_cls, 'round_number_map_char').value or {}).items() if v == 10), None)
+        cases = [(inv[6] + point + inv[6], 6.6), (neg + inv[6] + point + inv[6], -6.6), (neg + inv[0] + point + inv[5], -0.5),
+                 (inv[0] + point + inv[5], 0.5), (neg + inv[2] + point + inv[2] + inv[5], -2.25)]
+        if ten:
+            cases += [(neg + ten + inv[2] + point + inv[5], -12.5), (ten + inv[2] + point + inv[5], 12.5)]
+        badc = []
+        for text, want in cases:
+            try:
+                got = run_dou(dou, cfgn, text)
+            except PyExc as ex:
+                badc.append('%s raises %s' % (text, ex))
+                continue
+            if not isinstance(got, (int, float)) or isinstance(got, bool) or abs(float(got) - want) > 1e-9:
+                badc.append('%s -> %s (expected %s)' % (text, got, want))
+        chk.judge(not badc, 'C03.sign-fraction', cjk.mod.path, 'CJKNumberParser.dou_parse under %s[%s]' % (nr.config_cls.name, code),
+                  '%d decimals (sign %s, point %s), %d wrong%s' % (len(cases), neg, point, len(badc), (': ' + '; '.join(badc)) if badc else ''),
+                  'culture %s: CJKNumberParser.dou_parse does not compute sign x (|integer| + fraction): %s - the fraction of a negative '
+                  'decimal must be subtracted (get_int_value already returns the negative integer part)' % (code, '; '.join(badc[:4])),
+                  dou.lineno)
+    if not done:
+        raise AnalysisError('no CJK number configuration found')
+    chk.control('C03.sign-fraction', abs((-6 + 0.6) - (-6.6)) > 1e-9)
+
+
+_run_before_filter_fraction = run
+
+
+def run(chk):       # noqa: F811
+    _run_before_filter_fraction(chk)
+    rule_filter_and_fraction(chk)
